@@ -200,7 +200,8 @@ def function_inputs(target, seed=0, n=400):
             for w in ws:
                 yield dict(comparisons=c, weights=w)
     if mod == 'melody' and fn in ('raw_pitch_accuracy', 'raw_chroma_accuracy', 'overall_accuracy', 'voicing_recall', 'voicing_false_alarm'):
-        cents = [0.0, 4800.0, 4810.0, 4840.0, 4850.0, 4860.0, 5990.0, 6000.0, 6040.0, 3610.0, 7200.0, 2400.0, 5400.0]
+        cents = [0.0, 4800.0, 4810.0, 4840.0, 4850.0, 4860.0, 5990.0, 6000.0, 6040.0, 3610.0, 7200.0, 2400.0, 5400.0,
+                 -1200.0, -1190.0, -2400.0, -10.0, 1190.0]       # cents are negative for pitches below base_frequency
         vo = [0.0, 1.0, 0.5, 0.25]
         for _ in range(n):
             k = rng.randint(0, 4)
